@@ -48,6 +48,11 @@ CLAIMED["C11"] = dict(
    text="Exploration: the corpus and 8 Unicode stress texts x 6 (quick) / all 160 (thorough) formatter option combinations, 5k / 80k generated programs of three profiles in random spellings, and a seeded sample of corpus mutants that still parse: format() must return Ok without panicking; output must parse to the same canonical tree (modulo cosmetic fields), compile to the same bytecode and constants, behave identically when runnable, keep every comment in order, keep every number / string literal token, and be a fixed point of format(). Mutants are judged for totality, comments and literals only.",
    note="The pinned formatter has pervasive defects whenever it has to break lines; those cases are keyed to the known finding C11-line-breaks by an input/option predicate (line does not fit after re-indentation, line_length <= 40, chain_break_threshold <= 1, input already breaks inside an expression), so the strict clauses effectively cover programs that fit on their lines. Other known shapes: wildcard import, format-spec representation, odd-width characters, leading-minus line, blank line after a function header.",
    design="§4 C11")
+CLAIMED["C12"] = dict(
+   technique="property-based testing with planted faults and planted illegal tokens at known positions (the generator is the oracle), plus a span-order invariant over every instruction of generated and corpus programs",
+   text="Exploration: 60k (quick) / 600k (thorough) planted-fault programs (generated preamble with multi-line constructs and trivia, one of 8 fault kinds on a known line, optionally spread over two lines, reached through 0-4 carriers - calls, methods, each callbacks, overloads, nested blocks - and filler) are run through KotoVm::run: the trace must map, innermost first, to exactly the fault line and the call-site lines, the rendered message must quote those lines in order, and debug output must carry the line of the debug keyword; illegal tokens planted at known token boundaries of corpus texts must be reported on their line with a column inside it; every compile error over a sample of the mutation neighbourhood must point inside the source; and over 6k / 100k generated programs and the corpus the source span of successive instructions may never step back to an earlier top-level statement.",
+   note="Only lines are judged (columns must merely lie inside the line). Native adaptor frames are expected on the line of the call that drives them (repeated lines are collapsed).",
+   design="§4 C12")
 NOT_YET = {}
 props=[json.loads(l) for l in open('/verif/properties.jsonl')]
 checks=[]; na=[]
